@@ -97,6 +97,9 @@ def gen_media(ch, spec):
     cfg["pts0"] = 0
     cfg["wrap"] = {"seq": ch.randint("cfg", 8, 300, 20), "ts": ch.randint("cfg", 0, 600000, 9),
                    "rtx": ch.randint("cfg", 0, 40, 5)}
+    if ch.chance("cfg", 0.3):
+        # the wrapped run has one frame whose RTP timestamp is exactly 0
+        cfg["wrap"]["ts"] = 3000 * ch.choice("cfg", [1, 2, 5, 9]) - 1
     cfg["hit_at"] = cfg["wrap"]["seq"] + 1      # targeted losses sit where the second run wraps
     return cfg, ops
 
